@@ -367,9 +367,11 @@ theorem substance_index_spec (s : RSys) (k : String) :
 reactions, where reactions are compared on the four ordered stoichiometry dicts and the parameter — NOT on the name and not
 on the class (`Equilibrium` vs `Reaction`) -/
 theorem eq_spec (a b : RSys) :
-    a.pyEq b = true ↔ a.substs = b.substs ∧
+    (a.pyEq b = true ↔ a.substs = b.substs ∧
       List.Forall₂ (fun x y : Rxn => x.reac = y.reac ∧ x.prod = y.prod ∧ x.param = y.param ∧ x.paramB = y.paramB ∧
-        x.inactReac = y.inactReac ∧ x.inactProd = y.inactProd) a.rxns b.rxns := by
+        x.inactReac = y.inactReac ∧ x.inactProd = y.inactProd) a.rxns b.rxns) ∧
+    a.pyEq a = true := by
+  refine ⟨?_, by simp [RSys.pyEq, listPyEq_refl]⟩
   simp only [RSys.pyEq, Bool.and_eq_true, beq_iff_eq, listPyEq_iff, Rxn.pyEq_iff]
   exact and_comm
 
@@ -552,6 +554,84 @@ theorem make_deduced (rxns : List Rxn) (checks : List Check) (s : RSys)
     rintro a b ⟨hab, hne⟩
     by_contra hlt
     exact hne (String.le_antisymm hab (String.not_lt.mp hlt))
+
+/-- the constructor in full (`makeFull`): with explicit `checks`, no `dont_check` and without `missing_substances_from_keys` it
+is `make` (so `make_spec` applies); giving both `checks` and `dont_check` is refused; `missing_substances_from_keys=True` needs at
+least one reaction (`set.union(*[])` raises TypeError) and then the substances are exactly the given ones plus every key of a
+reaction — in particular every reaction key is a substance, whatever checks were requested —, sorted when sorting applies and
+otherwise the given substances first, in their order. -/
+theorem make_full_spec (rxns : List Rxn) (arg : SubstArg) (sort : Option Bool) :
+    (∀ cs, RSys.makeFull rxns arg (some cs) none sort false =
+      match RSys.make rxns arg cs sort with
+      | .ok s => .ok s
+      | .error c => .error (.check c)) ∧
+    (∀ cs dc, rxns ≠ [] → RSys.makeFull rxns arg (some cs) (some dc) sort true = .error .bothGiven) ∧
+    (∀ cs dc, RSys.makeFull rxns arg (some cs) (some dc) sort false = .error .bothGiven) ∧
+    (∀ checks dont, RSys.makeFull [] arg checks dont sort true = .error .typeError) ∧
+    (∀ checks dont s, RSys.makeFull rxns arg checks dont sort true = .ok s →
+      s.rxns = rxns ∧
+      (∀ k, k ∈ s.keys ↔ k ∈ (substancesOf rxns arg).1.map (·.1) ∨ ∃ r ∈ rxns, k ∈ r.keys) ∧
+      (sortApplies rxns arg sort = true → s.substs.Pairwise (fun a b => a.1 ≤ b.1)) ∧
+      (sortApplies rxns arg sort = false → (substancesOf rxns arg).1.map (·.1) <+: s.keys)) := by
+  refine ⟨fun cs => makeFull_explicit rxns arg cs sort, ?_, ?_, ?_, ?_⟩
+  · intro cs dc hne
+    have : rxns.isEmpty = false := by simpa using hne
+    simp [RSys.makeFull, this]
+  · intro cs dc; simp [RSys.makeFull]
+  · intro checks dont; simp [RSys.makeFull]
+  · intro checks dont s h
+    obtain ⟨_, h1, h2, h3, h4⟩ := makeFull_missing_ok h
+    refine ⟨h1, ?_, h3, ?_⟩
+    · intro k
+      have : k ∈ s.keys ↔ k ∈ okeys (addMissing (substancesOf rxns arg).1 rxns) := by
+        simp only [RSys.keys, okeys]; exact (h2.map _).mem_iff
+      rw [this, mem_okeys_addMissing]; rfl
+    · intro hd
+      rw [RSys.keys, h4 hd]
+      exact okeys_prefix_odictUpdate _ _
+
+/-- `categorize_substances` on reactions with NEGATIVE coefficients (possible with `checks=()`; plain reactions, no checks
+requested): it is refused ("Expected positive stoichiometric coefficients") as soon as the total reactant or the total product
+coefficient of some substance of the system is negative; without any negative coefficient it is `categorize`. -/
+theorem categorize_negative_refused (rxns : List SRxn) (substs : ODict) :
+    (∀ l, rxns.mapM SRxn.toRxn? = some l → ∀ checks,
+      categorizeSigned rxns substs checks = match categorize ⟨l, substs⟩ checks with
+        | .ok c => .ok c
+        | .error e => .error (.cat e)) ∧
+    ((∀ r ∈ rxns, r.isEq = false) →
+      (∃ r ∈ rxns, ∃ kv ∈ substs, r.reac.get kv.1 + r.inactReac.get kv.1 < 0 ∨ r.prod.get kv.1 + r.inactProd.get kv.1 < 0) →
+      categorizeSigned rxns substs [] = .error .negative) := by
+  constructor
+  · intro l hl checks
+    simp only [categorizeSigned, hl]
+    cases categorize ⟨l, substs⟩ checks <;> rfl
+  · intro hplain ⟨r, hr, kv, hkv, hneg⟩
+    have hnone : rxns.mapM SRxn.toRxn? = none := by
+      cases hm : rxns.mapM SRxn.toRxn? with
+      | none => rfl
+      | some l =>
+        exfalso
+        obtain ⟨x, hx⟩ := mapM_option_mem hm r hr
+        simp only [SRxn.toRxn?] at hx
+        split at hx
+        · rename_i a b c d ha hb hc hd
+          have h1 := SStoich.toStoich?_nonneg ha kv.1
+          have h2 := SStoich.toStoich?_nonneg hb kv.1
+          have h3 := SStoich.toStoich?_nonneg hc kv.1
+          have h4 := SStoich.toStoich?_nonneg hd kv.1
+          omega
+        · simp at hx
+    have hq : rxns.any (·.isEq) = false := by
+      rw [List.any_eq_false]; intro x hx; simp [hplain x hx]
+    have : (rxns.any fun r => (substs.map (·.1)).any fun k =>
+        decide (r.reac.get k + r.inactReac.get k < 0) || decide (r.prod.get k + r.inactProd.get k < 0)) = true := by
+      rw [List.any_eq_true]
+      refine ⟨r, hr, ?_⟩
+      rw [List.any_eq_true]
+      refine ⟨kv.1, List.mem_map_of_mem hkv, ?_⟩
+      rcases hneg with h | h <;> simp [h]
+    simp only [categorizeSigned, hnone, hq, List.isEmpty_nil, Bool.not_true, Bool.or_self, Bool.false_eq_true, ↓reduceIte]
+    rw [if_pos this]
 
 /-! ## the hypotheses are satisfiable: concrete instances -/
 
